@@ -30,8 +30,8 @@ import (
 
 	v1 "github.com/crossplane/crossplane/apis/apiextensions/v1"
 	pkgv1 "github.com/crossplane/crossplane/apis/pkg/v1"
-	apiextensionscontroller "github.com/crossplane/crossplane/internal/controller/apiextensions/controller"
 	"github.com/crossplane/crossplane/internal/controller/apiextensions/composition"
+	apiextensionscontroller "github.com/crossplane/crossplane/internal/controller/apiextensions/controller"
 	"github.com/crossplane/crossplane/internal/controller/apiextensions/definition"
 	"github.com/crossplane/crossplane/internal/controller/apiextensions/offered"
 	"github.com/crossplane/crossplane/internal/engine"
@@ -76,13 +76,14 @@ type Event struct {
 
 // Opts configures the world.
 type Opts struct {
-	Claims      bool // XRD offers a claim; offered + claim controllers run
-	SSAClaims   bool // EnableBetaClaimSSA
-	Realtime    bool
-	ConnKeys    []string // XRD connectionSecretKeys
-	FnFaults    bool
-	LagClaims   bool // claim controller's cache may serve stale claims
-	LagComposed bool // the engine cache may serve stale composed resources
+	Claims                bool // XRD offers a claim; offered + claim controllers run
+	SSAClaims             bool // EnableBetaClaimSSA
+	Realtime              bool
+	ConnKeys              []string // XRD connectionSecretKeys
+	FnFaults              bool
+	LagClaims             bool // claim controller's cache may serve stale claims
+	LagComposed           bool // the engine cache may serve stale composed resources
+	LagManual             bool // ... and lags until the environment lets it catch up (instead of per read)
 	DefaultCompositionRef bool
 }
 
@@ -96,12 +97,13 @@ type W struct {
 	Runner *xfn.PackagedFunctionRunner
 	Engine *SimEngine
 	Events []Event
+	View   *simapi.View // the lagging cache view of the current core process, if any
 	// Stops records SimEngine.Stop calls (controller name, step).
 	EngineLog []string
 	// hooks for property oracles
-	OnXRDone    func(key types.NamespacedName, t *sim.Task, startSeq int, res reconcile.Result, err error)
-	OnClaimDone func(key types.NamespacedName, t *sim.Task, startSeq int, res reconcile.Result, err error)
-	OnStart     func(ctrl string, key types.NamespacedName, t *sim.Task)
+	OnXRDone      func(key types.NamespacedName, t *sim.Task, startSeq int, res reconcile.Result, err error)
+	OnClaimDone   func(key types.NamespacedName, t *sim.Task, startSeq int, res reconcile.Result, err error)
+	OnStart       func(ctrl string, key types.NamespacedName, t *sim.Task)
 	OnEngineStop  func(name string)
 	OnFnTransport func(*simfn.Transport)
 	runners       []*xfn.PackagedFunctionRunner
@@ -404,7 +406,10 @@ func (w *W) NewProcess() {
 		}
 	}
 	if len(lag) > 0 {
-		cached = engClient.Cached(simapi.NewView(lag...))
+		w.View = simapi.NewView(lag...)
+		w.View.Manual = w.Opts.LagManual
+		w.View.CatchUp(w.Store.Seq())
+		cached = engClient.Cached(w.View)
 	}
 	w.Runner = xfn.NewPackagedFunctionRunner(mgrClient, xfn.WithInterceptorCreators(w.Fn))
 	w.runners = append(w.runners, w.Runner)
